@@ -21,6 +21,7 @@ func vhAssertCapacity(s Stack, cfg *nodeConfig, id string) {
 // 3 Marshal-into, 4 Pop, 5 Remove, 6 Reset)
 func VH_C03_Step(p []int) {
 	n, m := p[0], p[2]
+	vhPreMode = 2
 	pre := vhArbitraryStack(n, p[1], false, vhOptMask, 2, 3)
 	cfg := pre.cfg
 	vhAssertCapacity(pre.s, cfg, "pre")
